@@ -1,4 +1,4 @@
-CONSTANTS A = {71, 0, 16, 5, 31} MaxLen = 8
+CONSTANTS A = {71, 0, 16, 5, 31} MaxLen = 9
 SPECIFICATION Spec
 INVARIANTS Refines Tracks Terminates
 CHECK_DEADLOCK FALSE
